@@ -125,16 +125,18 @@ type AMem struct {
 	// Tails: base -> the elements from index From on are the elements Src[SrcLo..] of a slice the
 	// analysed code never wrote (a copy/append of unknown length)
 	Tails map[string]ATail
+	ver   map[string]int // object -> number of times (part of) it was written or forgotten
 }
 
 type ATail struct {
 	From  int
 	Src   string
 	SrcLo int
+	Ver   int // version of Src (see AMem.Version) when the elements were taken
 }
 
 func newMem() *AMem {
-	return &AMem{cells: map[string]AVal{}, havoc: map[string]bool{}, fresh: map[string]bool{}, from: map[string]int{}, Tails: map[string]ATail{}}
+	return &AMem{cells: map[string]AVal{}, havoc: map[string]bool{}, fresh: map[string]bool{}, from: map[string]int{}, Tails: map[string]ATail{}, ver: map[string]int{}}
 }
 
 func (m *AMem) clone() *AMem {
@@ -154,7 +156,26 @@ func (m *AMem) clone() *AMem {
 	for k, v := range m.Tails {
 		n.Tails[k] = v
 	}
+	for k, v := range m.ver {
+		n.ver[k] = v
+	}
 	return n
+}
+
+// Version counts the writes to (and havocs of) the object base so far: two reads of an
+// object of unknown content see the same content iff the version is the same.
+func (m *AMem) Version(base string) int { return m.ver[base] }
+
+func (m *AMem) bump(path string) {
+	if b, _, ok := splitIndex(path); ok {
+		m.ver[b]++
+		return
+	}
+	if i := strings.IndexByte(path, '['); i > 0 {
+		m.ver[path[:i]]++
+		return
+	}
+	m.ver[strings.TrimSuffix(path, "[")]++
 }
 
 // Untouched reports that the analysed code never wrote below base (nor handed it to a callee that may).
@@ -168,6 +189,11 @@ func (m *AMem) Untouched(base string) bool {
 		}
 	}
 	return m.untouched(base)
+}
+
+// tailOf describes "the elements of src from its start" as a tail beginning at index from.
+func (m *AMem) tailOf(from int, src AVal) ATail {
+	return ATail{From: from, Src: src.Path, SrcLo: src.Lo, Ver: m.ver[src.Path]}
 }
 
 // untouched reports that nothing below base was ever written or forgotten.
@@ -207,6 +233,7 @@ func splitIndex(path string) (string, int, bool) {
 
 // HavocFrom forgets the elements base[lo], base[lo+1], … (a copy of unknown length).
 func (m *AMem) HavocFrom(base string, lo int) {
+	m.ver[base]++
 	for k := range m.cells {
 		if b, i, ok := splitIndex(k); ok && b == base && i >= lo {
 			delete(m.cells, k)
@@ -268,6 +295,7 @@ func (m *AMem) isFresh(path string) bool {
 
 // Havoc forgets everything known about the cells whose path starts with prefix.
 func (m *AMem) Havoc(prefix string) {
+	m.bump(prefix)
 	for k := range m.cells {
 		if strings.HasPrefix(k, prefix) {
 			delete(m.cells, k)
@@ -337,6 +365,9 @@ func (m *AMem) Store(path string, v AVal, t types.Type) {
 		return
 	}
 	m.cells[path] = v
+	if strings.HasSuffix(path, "]") {
+		m.bump(path)
+	}
 }
 
 // Cells lists the written cells below prefix, sorted.
@@ -523,12 +554,13 @@ type astate struct {
 	// a sub-run of if-conversion ends when the frame at depth stopDepth reaches stopAt
 	stopAt    *ssa.BasicBlock
 	stopDepth int
+	nils      map[string]bool // named values compared with nil on this path: true = was nil
 	stopRet   bool   // join == function exit: the sub-run ends at the return of the frame at stopDepth
 	retVals   []AVal // the values of that return
 }
 
 func (s *astate) clone() *astate {
-	n := &astate{mem: s.mem.clone(), steps: s.steps, serial: s.serial, facts: map[string][2]uint64{}, stopAt: s.stopAt, stopDepth: s.stopDepth, stopRet: s.stopRet}
+	n := &astate{mem: s.mem.clone(), steps: s.steps, serial: s.serial, facts: map[string][2]uint64{}, stopAt: s.stopAt, stopDepth: s.stopDepth, stopRet: s.stopRet, nils: s.nils}
 	for k, v := range s.facts {
 		n.facts[k] = v
 	}
@@ -554,6 +586,7 @@ type AOutcome struct {
 	Panicked bool
 	Stopped  bool
 	Facts    map[string][2]uint64
+	Nils     map[string]bool // named values found nil (true) / non-nil (false) by the branches of this path
 }
 
 type Exec struct {
@@ -778,7 +811,7 @@ func (ex *Exec) run(s *astate) ([]*astate, *AOutcome, error) {
 			fr.pred, fr.block, fr.pc = fr.block, fr.block.Succs[0], 0
 			continue
 		case *ssa.Panic:
-			return nil, &AOutcome{Conds: s.conds, Mem: s.mem, Trace: s.trace, Panicked: true, Facts: s.facts}, nil
+			return nil, &AOutcome{Conds: s.conds, Mem: s.mem, Trace: s.trace, Panicked: true, Facts: s.facts, Nils: s.nils}, nil
 		case *ssa.Return:
 			var rets []AVal
 			if s.retVals != nil {
@@ -796,7 +829,7 @@ func (ex *Exec) run(s *astate) ([]*astate, *AOutcome, error) {
 				}
 			}
 			if len(s.frames) == 1 {
-				return nil, &AOutcome{Conds: s.conds, Ret: rets, Mem: s.mem, Trace: s.trace, Facts: s.facts}, nil
+				return nil, &AOutcome{Conds: s.conds, Ret: rets, Mem: s.mem, Trace: s.trace, Facts: s.facts, Nils: s.nils}, nil
 			}
 			s.frames = s.frames[:len(s.frames)-1]
 			caller := s.frames[len(s.frames)-1]
@@ -818,7 +851,7 @@ func (ex *Exec) run(s *astate) ([]*astate, *AOutcome, error) {
 				return nil, nil, err
 			}
 			if n := len(s.trace); n > 0 && s.trace[n-1].Stop && s.trace[n-1].Site == x {
-				return nil, &AOutcome{Conds: s.conds, Mem: s.mem, Trace: s.trace, Stopped: true, Facts: s.facts}, nil
+				return nil, &AOutcome{Conds: s.conds, Mem: s.mem, Trace: s.trace, Stopped: true, Facts: s.facts, Nils: s.nils}, nil
 			}
 			if entered {
 				continue
@@ -881,6 +914,19 @@ func (ex *Exec) refine(t, f *astate, fr *aframe, cond ssa.Value) {
 	tf, ff := t.frames[len(t.frames)-1], f.frames[len(f.frames)-1]
 	l, r := ex.val(t, tf, bo.X), ex.val(t, tf, bo.Y)
 	_ = ff
+	if (bo.Op == token.EQL || bo.Op == token.NEQ) && (l.K == ANil) != (r.K == ANil) {
+		// x == nil / x != nil for something with a name
+		x := l
+		if l.K == ANil {
+			x = r
+		}
+		if x.Path != "" {
+			t.nils, f.nils = cloneNils(t.nils), cloneNils(f.nils)
+			t.nils[x.Path] = bo.Op == token.EQL
+			f.nils[x.Path] = bo.Op != token.EQL
+		}
+		return
+	}
 	if l.K != AInt || r.K != AInt {
 		return
 	}
@@ -993,6 +1039,14 @@ func (ex *Exec) refine(t, f *astate, fr *aframe, cond ssa.Value) {
 	case token.NEQ:
 		apply(f, k, k)
 	}
+}
+
+func cloneNils(m map[string]bool) map[string]bool {
+	n := make(map[string]bool, len(m)+1)
+	for k, v := range m {
+		n[k] = v
+	}
+	return n
 }
 
 var errArrived = fmt.Errorf("arrived")
@@ -2247,8 +2301,8 @@ func (ex *Exec) builtin(s *astate, fr *aframe, x *ssa.Call, name string, args []
 				if d.Lo >= 0 {
 					s.mem.HavocFrom(d.Path, d.Lo)
 					delete(s.mem.Tails, d.Path)
-					if src.K == ASlice && src.Lo >= 0 && s.mem.untouched(src.Path) {
-						s.mem.Tails[d.Path] = ATail{From: d.Lo, Src: src.Path, SrcLo: src.Lo}
+					if src.K == ASlice && src.Lo >= 0 {
+						s.mem.Tails[d.Path] = s.mem.tailOf(d.Lo, src)
 					}
 				} else {
 					s.mem.Havoc(d.Path + "[")
@@ -2296,8 +2350,19 @@ func (ex *Exec) builtin(s *astate, fr *aframe, x *ssa.Call, name string, args []
 					s.mem.Store(fmt.Sprintf("%s[%d]", nm, i), s.mem.Load(fmt.Sprintf("%s[%d]", a.Path, a.Lo+i), et), et)
 				}
 				s.mem.from[nm] = an
-				if b.K == ASlice && b.Lo >= 0 && s.mem.untouched(b.Path) {
-					s.mem.Tails[nm] = ATail{From: an, Src: b.Path, SrcLo: b.Lo}
+				if b.K == ASlice && b.Lo >= 0 {
+					// a source that is itself "known prefix + tail" contributes its prefix as cells
+					if k, has := s.mem.from[b.Path]; has && b.Lo == 0 {
+						if bt, hasT := s.mem.Tails[b.Path]; hasT && bt.From == k {
+							for i := 0; i < k; i++ {
+								s.mem.Store(fmt.Sprintf("%s[%d]", nm, an+i), s.mem.Load(fmt.Sprintf("%s[%d]", b.Path, i), et), et)
+							}
+							s.mem.from[nm] = an + k
+							s.mem.Tails[nm] = ATail{From: an + k, Src: bt.Src, SrcLo: bt.SrcLo, Ver: bt.Ver}
+							return AVal{K: ASlice, Path: nm, Lo: 0, Len: -1, LenName: fmt.Sprintf("(%d+len(%s))", an, argName(b))}
+						}
+					}
+					s.mem.Tails[nm] = s.mem.tailOf(an, b)
 				}
 				return AVal{K: ASlice, Path: nm, Lo: 0, Len: -1, LenName: fmt.Sprintf("(%d+len(%s))", an, argName(b))}
 			}
